@@ -20,8 +20,11 @@
 
 #ifdef NATIVE_REPLAY
 #include <stdio.h>
+#include <string.h>
 #include <stdlib.h>
 uint64_t vr_next(void);
+int vr_fill(void);   /* byte used for "memory the harness leaves unconstrained": 0, or $VERIF_FILL on the driver's retries */
+#define NATIVE_FILL(p, n) memset((p), vr_fill(), (n))
 #define VIN(x)  (vr_next())
 #define ND_U8()   ((uint8_t)vr_next())
 #define ND_U16()  ((uint16_t)vr_next())
